@@ -210,6 +210,57 @@ func TestVF_C11_Histories(t *testing.T) {
 					lastJS, lastNonce = js, nonce
 				}
 			},
+			"resignAndAdopt": func(rt *rapid.T) {
+				// the issuer signs the current accumulator again with a later time; the witness (already
+				// at that index) adopts the newer signature; a prepared commitment must follow
+				if w.idx != w.world.acc.Index {
+					rt.Skip("witness not at the latest accumulator")
+				}
+				withCache := rapid.Bool().Draw(rt, "cacheFirst")
+				step(fmt.Sprintf("resignAndAdopt(prepareCacheFirst=%v)", withCache))
+				if withCache {
+					if err := w.cred.cred.NonrevPrepareCache(); err != nil {
+						fail("prepare-cache-error", err.Error())
+						return
+					}
+					w.cacheAt = int64(w.idx)
+				}
+				acc := *w.world.acc
+				acc.Time += 1000
+				upd, err := revocation.NewUpdate(w.kp.Sk, &acc, []*revocation.Event{w.world.events[len(w.world.events)-1]})
+				if err != nil {
+					rt.Fatalf("NewUpdate: %v", err)
+				}
+				w.world.acc, w.world.sacc = &acc, upd.SignedAccumulator
+				w.world.record()
+				if err := w.cred.cred.NonRevocationWitness.Update(pk, upd); err != nil {
+					fail("valid-witness-update-fails", err.Error())
+					return
+				}
+				if got := w.cred.cred.NonRevocationWitness.SignedAccumulator.Accumulator.Time; got != acc.Time {
+					fail("newer-signature-not-adopted", fmt.Sprintf("time %d want %d", got, acc.Time))
+					return
+				}
+				if withCache {
+					w.afterRefresh = true
+					if rapid.Bool().Draw(rt, "prepareAgain") {
+						if err := w.cred.cred.NonrevPrepareCache(); err != nil {
+							fail("prepare-cache-error", err.Error())
+							return
+						}
+					}
+					js, nonce, sig, what := w.proveAndCheck(rec)
+					w.cacheAt = -1
+					if sig != "" {
+						fail(sig, what)
+						return
+					}
+					if js != nil {
+						earlierJS = lastJS
+						lastJS, lastNonce = js, nonce
+					}
+				}
+			},
 			"refreshScenario": func(rt *rapid.T) {
 				// prepared commitment, then the accumulator moves on, the witness follows, and the
 				// proof is made through the (now outdated) prepared commitment
@@ -454,6 +505,65 @@ func c11Forgeries(rec *vfh.Rec, rt *rapid.T, w *c11World, js []byte, nonce *big.
 		}
 		return true
 	}
+	// ---- adversarial prover: credential A's proof carries a non-revocation part computed from
+	// ANOTHER credential's (valid) witness, with the challenge hashed over exactly what the
+	// verifier reconstructs. Control: the same construction with A's own witness is accepted.
+	for _, variant := range []string{"control-own-witness", "foreign-witness/alpha-kept", "foreign-witness/alpha-deleted"} {
+		src := w.other.cred
+		if variant == "control-own-witness" {
+			src = w.cred.cred
+		}
+		nb, err := src.NonrevBuildProofBuilder()
+		if err != nil {
+			continue
+		}
+		hidden := []int{0}
+		for i := 2; i < len(w.cred.cred.Attributes); i++ {
+			hidden = append(hidden, i)
+		}
+		ab, err := newAdvBuilder(w.kp, w.cred.cred, hidden, map[int]*big.Int{1: w.cred.cred.Attributes[1]})
+		if err != nil {
+			continue
+		}
+		// the revocation attribute's randomiser: the non-revocation builder's own one (honest tie)
+		ab.aC[w.cred.revIdx] = nb.randomizer
+		wb := &advNonrevWrapper{adv: ab, nb: nb, keepAlpha: variant == "foreign-witness/alpha-kept"}
+		n3 := w.nextNonce()
+		apl, err := ProofBuilderList{wb}.BuildProofList(ctx, n3, false)
+		if err != nil || ab.negative {
+			continue
+		}
+		ajs, err := json.Marshal(apl)
+		if err != nil {
+			continue
+		}
+		var back ProofList
+		if json.Unmarshal(ajs, &back) != nil {
+			continue
+		}
+		var acc bool
+		ps := vfh.Guard(func() { acc = back.Verify(keys1(w.kp), ctx, n3, false, nil) })
+		rec.Case("adversarial-prover/"+variant, true, fmt.Sprintf("ap|%s|%s|%v", w.kp.Name, variant, w.history))
+		if ps != "" {
+			rec.Fail(rt, ps+":"+variant, det(variant))
+			return
+		}
+		if variant == "control-own-witness" {
+			if !acc && c11Ambiguous(back[0].(*ProofD)) {
+				continue
+			}
+			rec.Control(acc, "adversarial prover with the credential's own witness (null deviation) rejected")
+			if !acc {
+				break
+			}
+			continue
+		}
+		if acc {
+			rec.Fail(rt, "nonrev-proof-from-foreign-witness-accepted:"+variant, det(variant))
+			return
+		}
+	}
+
 	_ = tp("nonrev-parts-swapped-between-credentials", func(l ProofList) {
 		a, b := l[0].(*ProofD), l[1].(*ProofD)
 		a.NonRevocationProof, b.NonRevocationProof = b.NonRevocationProof, a.NonRevocationProof
@@ -515,4 +625,35 @@ func TestVF_C11_Boundary(t *testing.T) {
 				map[string]any{"key": w.kp.Name, "victim_index": victim, "randomiser_bits": r.BitLen(), "rejected_of_16": rejected})
 		}
 	})
+}
+
+// advNonrevWrapper glues a harness-side disclosure prover to a non-revocation proof builder of
+// any witness: contributions are ordered as the verifier reconstructs them.
+type advNonrevWrapper struct {
+	adv       *advBuilder
+	nb        *NonRevocationProofBuilder
+	keepAlpha bool
+}
+
+func (b *advNonrevWrapper) PublicKey() *gabikeys.PublicKey          { return b.adv.PublicKey() }
+func (b *advNonrevWrapper) SetProofPCommitment(c *ProofPCommitment) { b.adv.SetProofPCommitment(c) }
+func (b *advNonrevWrapper) Commit(r map[string]*big.Int) ([]*big.Int, error) {
+	l, err := b.adv.Commit(r)
+	if err != nil {
+		return nil, err
+	}
+	nl, err := b.nb.Commit()
+	if err != nil {
+		return nil, err
+	}
+	return append(l, nl...), nil
+}
+func (b *advNonrevWrapper) CreateProof(c *big.Int) Proof {
+	p := b.adv.CreateProof(c).(*ProofD)
+	np := b.nb.CreateProof(c)
+	if !b.keepAlpha {
+		delete(np.Responses, "alpha")
+	}
+	p.NonRevocationProof = np
+	return p
 }
